@@ -89,7 +89,10 @@ impl Local {
         }
     }
     pub fn viol(&mut self, v: Viol) {
-        if self.viols.len() < 200 {
+        // caps are per fingerprint, so that a flood of one kind (e.g. a known finding) can never
+        // crowd out a different violation
+        let n = self.viols.iter().filter(|x| x.key == v.key).count();
+        if n < 4 && self.viols.len() < 400 {
             self.viols.push(v);
         }
         self.count("violating_cases");
@@ -137,7 +140,8 @@ impl Report {
             }
         }
         for v in l.viols {
-            if g.viols.len() < 2000 {
+            let n = g.viols.iter().filter(|x| x.key == v.key).count();
+            if n < 12 && g.viols.len() < 5000 {
                 g.viols.push(v);
             }
         }
